@@ -20,6 +20,13 @@ instance : LT Ver := ⟨fun a b => a.toNat < b.toNat⟩
 instance (a b : Ver) : Decidable (a ≤ b) := inferInstanceAs (Decidable (a.toNat ≤ b.toNat))
 instance (a b : Ver) : Decidable (a < b) := inferInstanceAs (Decidable (a.toNat < b.toNat))
 
+theorem Ver.forall_iff (p : Ver → Prop) : (∀ v, p v) ↔ p .v14 ∧ p .v15 ∧ p .v20 ∧ p .v21 ∧ p .v22 :=
+  ⟨fun h => ⟨h _, h _, h _, h _, h _⟩, fun ⟨a, b, c, d, e⟩ v => by cases v <;> assumption⟩
+
+/-- Statements quantified over the five versions are decidable when each instance is. -/
+instance (p : Ver → Prop) [DecidablePred p] : Decidable (∀ v, p v) :=
+  decidable_of_iff _ (Ver.forall_iff p).symm
+
 /-- The two decorators that wrap incoming handlers. -/
 inductive Wrapper where
   /-- `protocol_14.handle_missing_protocol_version` (try/finally: version query). -/
